@@ -57,8 +57,9 @@ def parse_directive(lines):
             opts.append([m.group(1), m.group(2)])
         else:
             if not opts:
-                raise Undecided(f'directive continuation without key: {ln!r}')
-            opts[-1][1] += '\n' + body
+                opts.append(['_cont', body])
+            else:
+                opts[-1][1] += '\n' + body
     return kind, head.strip(), opts
 
 
@@ -171,6 +172,15 @@ class Builder:
         self.assumption_tags = []
         self.unit_rules = set(R.DEFAULT_RULES)
         self.extra_subs = []   # unit-wide substitutions: (name, regex, repl)
+        self.defines = {}
+
+    def _expand(self, text):
+        for _ in range(4):
+            new = re.sub(r'\$([A-Z][A-Z0-9_]*)', lambda m: self.defines.get(m.group(1), m.group(0)), text)
+            if new == text:
+                break
+            text = new
+        return text
 
     def src(self, rel):
         if rel not in self.src_cache:
@@ -210,6 +220,14 @@ class Builder:
 
     def _directive(self, block, path, seen):
         kind, head, opts = parse_directive(block)
+        if kind == 'define':
+            name, _, text = head.partition(' ')
+            for k, v in opts:
+                text += '\n' + v
+            self.defines[name] = text
+            return
+        for o in opts:
+            o[1] = self._expand(o[1])
         if kind == 'include':
             inc = os.path.join(os.path.dirname(path), head)
             self._process_file(inc, seen)
@@ -280,7 +298,10 @@ class Builder:
         sig = split_sig(text)
         # pieces
         pre = text[:sig['fn_kw']]
+        trait_impl = bool(impl and re.search(r'\bfor\b', impl)) and od.get('impl_as', '').strip() != 'inherent'
         pre = R.fix_fn_prefix(pre, fired)
+        if trait_impl:
+            pre = pre.replace('pub ', '', 1)
         fname = text[sig['name'][0]:sig['name'][1]]
         newname = od.get('name', fname).strip()
         gen = text[sig['gen'][0]:sig['gen'][1]] if sig['gen'] else ''
